@@ -11,7 +11,11 @@ use std::sync::atomic::{AtomicBool, AtomicU64, Ordering};
 use std::sync::Mutex;
 use std::time::Instant;
 
-pub const VERIF_DIR: &str = "/verif";
+/// Root of the verification tree (evidence, work files, known findings).  `/verif` unless the
+/// environment variable HV_VERIF_DIR points elsewhere (used only for scratch development copies).
+pub fn verif_dir() -> String {
+    std::env::var("HV_VERIF_DIR").unwrap_or_else(|_| "/verif".to_string())
+}
 
 #[derive(Clone, Copy, PartialEq, Eq, Debug)]
 pub enum Tier {
@@ -196,7 +200,7 @@ pub struct KnownFindings {
 
 impl KnownFindings {
     pub fn load() -> KnownFindings {
-        let path = format!("{VERIF_DIR}/known_findings.json");
+        let path = format!("{}/known_findings.json", verif_dir());
         let mut out = KnownFindings::default();
         let Ok(text) = std::fs::read_to_string(&path) else {
             return out;
@@ -546,7 +550,7 @@ pub struct PropSpec {
 }
 
 fn work_dir(id: &str) -> PathBuf {
-    let p = PathBuf::from(format!("{VERIF_DIR}/work/{id}"));
+    let p = PathBuf::from(format!("{}/work/{id}", verif_dir()));
     let _ = std::fs::create_dir_all(&p);
     p
 }
@@ -672,7 +676,7 @@ pub fn run_parent(spec: &PropSpec, tier: Tier, seed: u64) -> i32 {
 fn finish(spec: &PropSpec, ctx: &mut Ctx, mut broken: Vec<String>) -> i32 {
     let rep = &ctx.rep;
     // replay files + VIOLATION lines
-    let replay_dir = PathBuf::from(format!("{VERIF_DIR}/evidence/replays"));
+    let replay_dir = PathBuf::from(format!("{}/evidence/replays", verif_dir()));
     let _ = std::fs::create_dir_all(&replay_dir);
     let mut stdout = std::io::stdout();
     for (i, v) in rep.violations.iter().enumerate() {
@@ -737,7 +741,7 @@ fn finish(spec: &PropSpec, ctx: &mut Ctx, mut broken: Vec<String>) -> i32 {
         "wall_s": ctx.start.elapsed().as_secs_f64(),
         "violations": rep.violation_count,
     });
-    let epath = format!("{VERIF_DIR}/evidence/{}.json", spec.id);
+    let epath = format!("{}/evidence/{}.json", verif_dir(), spec.id);
     if let Err(e) = std::fs::write(&epath, serde_json::to_vec_pretty(&evidence).unwrap_or_default()) {
         eprintln!("hv: cannot write {epath}: {e}");
         return 2;
